@@ -14,34 +14,69 @@ uint64_t nondet_u64(void);
 size_t nondet_size(void);
 
 #include "db_impl.c"
-#include "contracts/dbgc.h"      /* g_db, g_held, g_locks, g_unlocks, g_gc_allowed */
 
 #define SHUT(db) (*(int *)&(db)->shutting_down)
 #define HASIMM(db) (*(int *)&(db)->has_imm)
 
 /* ------------------------------------------------------------------ ghost */
-size_t g_n, g_pos, g_tk;                      /* input length, cursor, tracked index */
+/* ghost state written inside the main loop (one object = one assigns target) and outside it */
+struct ghost_loop { size_t pos, allocs, pending_puts; int in_err; uint64_t next_file, alloc_number, fname_number, b_entries, ukbuf_uid;
+  int b_live, b_state, f_live, c_fin, c_sync, c_close, c_verify, viter_live, v_rc, ukbuf_set, status_calls, held; unsigned added_k, decided_k, locks, unlocks; } G;
+struct ghost_once { int firsts, in_destroys, in_creates, apply_rc, apply_in_err, apply_open, ss_checked; unsigned indel_calls, apply_calls, apply_indel, broadcasts;
+  size_t apply_pos, apply_af, pending_dels; } H;
+ldb_t *g_db;
+#define g_pos G.pos
+#define g_in_err G.in_err
+#define g_next_file G.next_file
+#define g_alloc_number G.alloc_number
+#define g_fname_number G.fname_number
+#define g_allocs G.allocs
+#define g_pending_puts G.pending_puts
+#define g_b_live G.b_live
+#define g_b_state G.b_state
+#define g_b_entries G.b_entries
+#define g_f_live G.f_live
+#define g_c_fin G.c_fin
+#define g_c_sync G.c_sync
+#define g_c_close G.c_close
+#define g_c_verify G.c_verify
+#define g_viter_live G.viter_live
+#define g_v_rc G.v_rc
+#define g_added_k G.added_k
+#define g_decided_k G.decided_k
+#define g_ukbuf_set G.ukbuf_set
+#define g_ukbuf_uid G.ukbuf_uid
+#define g_status_calls G.status_calls
+#define g_held G.held
+#define g_locks G.locks
+#define g_unlocks G.unlocks
+#define g_firsts H.firsts
+#define g_in_destroys H.in_destroys
+#define g_in_creates H.in_creates
+#define g_indel_calls H.indel_calls
+#define g_apply_calls H.apply_calls
+size_t g_af_calls;
+#define g_apply_rc H.apply_rc
+#define g_apply_pos H.apply_pos
+#define g_apply_af H.apply_af
+#define g_apply_in_err H.apply_in_err
+#define g_apply_open H.apply_open
+#define g_apply_indel H.apply_indel
+#define g_broadcasts H.broadcasts
+#define g_ss_checked H.ss_checked
+#define g_pending_dels H.pending_dels
+size_t g_n, g_tk;                      /* input length, cursor, tracked index */
 int t_parse0, t_parse1, t_type1, t_base1;    /* entry k-1 (suffix 0) and entry k (suffix 1) */
 uint64_t t_uid0, t_uid1, t_seq0, t_seq1;
 uint8_t *g_key_base, *g_val_base;
-int g_in_err, g_firsts, g_in_destroys, g_in_creates, g_status_calls;
-unsigned g_added_k, g_decided_k;
-int g_ukbuf_set; uint64_t g_ukbuf_uid;
 uint64_t g_S;                                /* ghost snapshot */
 struct ldb_tablegen_s { int dummy; };
 struct ldb_wfile_s { int dummy; };
 ldb_tablegen_t g_builder_obj; ldb_wfile_t g_wfile_obj;
-int g_b_live, g_b_state; uint64_t g_b_entries;
-int g_f_live;
-int g_c_fin, g_c_sync, g_c_close, g_c_verify;   /* protocol state of the current output */
-ldb_iter_t g_input_obj, g_viter_obj; int g_in_state, g_viter_state; int g_viter_live, g_v_rc;
-uint64_t g_next_file, g_alloc_number, g_fname_number; size_t g_allocs, g_pending_puts, g_pending_dels;
+ldb_iter_t g_input_obj, g_viter_obj; int g_in_state, g_viter_state;
 ldb_output_t g_top_out;                      /* summary object for all output records */
 ldb_filemeta_t g_in_file;                    /* summary object for all input files */
-unsigned g_indel_calls, g_apply_calls; size_t g_af_calls; int g_apply_rc;
-size_t g_apply_pos, g_apply_af; int g_apply_in_err, g_apply_open, g_apply_indel;
-unsigned g_broadcasts;
-ldb_snapshot_t g_snap1, g_snap2; uint64_t g_ss; int g_ss_checked;
+ldb_snapshot_t g_snap1, g_snap2; uint64_t g_ss;
 ldb_cstate_t *g_state;
 ldb_compaction_t g_c; ldb_versions_t g_versions; ldb_comparator_t g_ucmp; ldb_readopt_t g_ropt;
 char g_tc_obj; ldb_version_t g_iv_obj;
@@ -158,7 +193,6 @@ ldb_iter_t *ldb_tables_iterate(ldb_tables_t *cache, const ldb_readopt_t *options
   __CPROVER_assert(cache == g_db->table_cache && !g_held && file_number == g_alloc_number, "verification read of the output just written, mutex released");
   __CPROVER_assert(g_c_fin == 1 && g_c_sync == 1 && g_c_close == 1, "O3: verification only after finish, sync and close succeeded");
   g_v_rc = nondet_int(); g_viter_live = 1;
-  g_viter_obj.ptr = &g_viter_state; g_viter_obj.table = &g_vtable;
   return &g_viter_obj;
 }
 void ldb_iter_destroy(ldb_iter_t *it) {
@@ -243,10 +277,7 @@ int ldb_versions_apply(ldb_versions_t *vset, ldb_edit_t *edit, ldb_mutex_t *mu) 
 }
 
 /* ------------------------------------------------------------------ contract */
-#define WORK_GHOST g_held, g_locks, g_unlocks, g_pos, g_in_err, g_firsts, g_in_destroys, g_in_creates, g_status_calls, g_added_k, g_decided_k, g_ukbuf_set, g_ukbuf_uid, \
-  g_b_live, g_b_state, g_b_entries, g_f_live, g_c_fin, g_c_sync, g_c_close, g_c_verify, g_input_obj, g_viter_obj, g_viter_live, g_v_rc, g_next_file, g_alloc_number, g_fname_number, \
-  g_allocs, g_pending_puts, g_top_out, g_indel_calls, g_apply_calls, g_af_calls, g_apply_rc, g_apply_pos, g_apply_af, g_apply_in_err, g_apply_open, g_apply_indel, g_broadcasts, \
-  g_ss_checked, g_snap1, g_snap2, g_versions.last_sequence
+#define WORK_GHOST G, H, g_af_calls, g_input_obj, g_viter_obj, g_top_out, g_snap1, g_snap2, g_versions.last_sequence
 
 int c_work(ldb_t *db, ldb_cstate_t *state)
 __CPROVER_requires(db == g_db && state == g_state && g_held && __CPROVER_rw_ok(db, sizeof(*db)) && __CPROVER_rw_ok(state, sizeof(*state)))
@@ -310,6 +341,7 @@ void h_work_u(void) {
   if (nsnap >= 1) { db->snapshots.head.next = &g_snap1; g_snap1.prev = &db->snapshots.head; g_snap1.next = &db->snapshots.head; db->snapshots.head.prev = &g_snap1; }
   if (nsnap == 2) { g_snap1.next = &g_snap2; g_snap2.prev = &g_snap1; g_snap2.next = &db->snapshots.head; db->snapshots.head.prev = &g_snap2; }
   g_ss = nsnap ? g_snap1.sequence : g_versions.last_sequence;
+  g_viter_obj.ptr = &g_viter_state; g_viter_obj.table = &g_vtable;
   g_state = NULL;
   state = ldb_cstate_create(&g_c);
   g_state = state;
